@@ -73,18 +73,18 @@ PROPS = {
     },
     "C18": {
         "level": "other",
-        "explanation": "Narrow claim on the dual representation of strings. Decided by Verus contracts on real text: FencedString::{len, substr, substring} (src/util/fenced_string.rs) against the representation invariant (an empty offset table means pure ASCII text, a non-empty one has one entry per code point, entry i being the byte offset of code point i): `len` is the number of code points, `substr` / `substring` of (start, end) with start <= len denote exactly the code points [start, min(end, len)) whichever representation the string has, and `substring` returns a well-formed string; the natives get / find / rfind / substring (src/builtin/str.rs) turn every out-of-range request into an error value before they reach those functions, and find / rfind answer code-point positions. UTF-8 itself is abstracted by uninterpreted functions (number of code points, byte offset of a code point) with the boundary facts the code relies on as axioms; `String` / `Vec` / `str` are model types of the same names. NOT decided: construction of the table (from_string: char_indices), push / push_ascii, case mapping, the literal grammar and escapes, formatted strings, and every string function written in the xray language (split, replace, strip, partition, ...).",
+        "explanation": "Narrow claim on the dual representation of strings. Decided by Verus contracts on real text: every method of FencedString that builds or reads the representation (src/util/fenced_string.rs: from_string, from_str, len, substr, substring, char_index_of_byte, bytes, as_str, is_empty, push, push_ascii, shrink_to_fit, to_lowercase, to_uppercase, and the `+` impl) against the representation invariant (an empty offset table means pure ASCII text, a non-empty one has one entry per code point, entry i being the byte offset of code point i): the constructor establishes the invariant over exactly the given text (and keeps no table for ASCII text); `len` is the number of code points; `substr` / `substring` of (start, end) with start <= len denote exactly the code points [start, min(end, len)) whichever representation the string has, and `substring` returns a well-formed string; push / `+` give the concatenation with a table for the whole, for each of the four combinations of representations; case mapping returns the mapped text with a table for ITS code points; the natives get / find / rfind / substring (src/builtin/str.rs) turn every out-of-range request into an error value before they reach those functions, and find / rfind answer code-point positions. UTF-8 itself is abstracted by uninterpreted functions (number of code points, byte offset of a code point) with the boundary / slicing / concatenation facts the code relies on as axioms; `String` / `Vec` / `str` / `Either` are model types of the same names. NOT decided: the literal grammar and escapes, formatted strings, comparison, and every string function written in the xray language (split, replace, strip, partition, ...).",
         "units": [
             {"kind": "verus", "unit": "fstr"},
             {"kind": "verus", "unit": "strnat"},
         ],
         "unreached": [
-            "FencedString::{from_string, push, push_ascii, to_lowercase, to_uppercase}: construction and maintenance of the offset table (char_indices, iterator towers, std case mapping)",
             "the literal grammar (xray.pest), escapes (str_escapes.rs), formatted strings (xformatter.rs)",
-            "string functions written in the xray language (include.rs: split, replace, strip, partition, chars, reverse, ...), comparison, repetition",
+            "string functions written in the xray language (include.rs: split, replace, strip, partition, chars, reverse, ...), comparison (bytewise on the buffer), repetition, ord / chr, the regex natives",
+            "what std's case mapping answers (lower / upper are uninterpreted); FencedString::iter (chars of the buffer)",
         ],
-        "assumptions": ["UTF-8 abstracted: nchars / off / ascii are uninterpreted, with axioms: offsets are strictly increasing from 0 to the byte length; a piece cut at two code-point offsets has the code points in between, offsets shifted, and stays ASCII; ASCII text has one byte per code point; the empty text is ASCII",
-                        "String / str / Vec are model types (byte / element sequences) with slicing, to_string, get, iter().map().collect() by their documented meaning; std panics on a str slice off a char boundary are not modelled beyond the range bounds (the offsets used are code-point offsets by the invariant)"],
+        "assumptions": ["UTF-8 abstracted: nchars / off / ascii are uninterpreted, with axioms: offsets are strictly increasing from 0 to the byte length; a piece cut at two code-point offsets has the code points in between, offsets shifted, and stays ASCII; ASCII text has one byte per code point and conversely; the empty text is ASCII; a concatenation has the code points of the first text followed by those of the second",
+                        "String / str / Vec / slices / either::Either are model types (byte / element sequences) with slicing, to_string, get, push, push_str, extend, char_indices, iter().map().collect(), (a..b).chain(..).collect() by their documented meaning; a String holds at most isize::MAX bytes; std panics on a str slice off a char boundary are not modelled beyond the range bounds (the offsets used are code-point offsets by the invariant)"],
     },
     "C06": {
         "level": "other",
@@ -291,9 +291,9 @@ CLAIMS = {
     },
     "C18": {
         "engine": "vx+verus",
-        "technique": "contract-based deductive verification: Verus contracts on the real text of FencedString::{len, substr, substring} against the representation invariant of the offset table, and on the index guards of the str natives get / find / rfind / substring; UTF-8 abstracted by uninterpreted functions with axioms",
-        "text": "Narrow (the dual representation): len is proved to be the number of code points and substr / substring to denote exactly the code points [start, min(end, len)) for either representation (ASCII text without table, other text with a byte-offset table), substring returning a well-formed string; the natives are proved to hand only in-range requests to them (everything else is an error value) and find / rfind to answer code-point positions.",
-        "note": "Table construction, push, case mapping, literals, escapes, formatting and the string library written in the xray language are listed as unreached; UTF-8 is axiomatised, not modelled.",
+        "technique": "contract-based deductive verification: Verus contracts on the real text of FencedString::{from_string, len, substr, substring, char_index_of_byte, push, push_ascii, to_lowercase, to_uppercase, +} against the representation invariant of the offset table, and on the index guards of the str natives get / find / rfind / substring; UTF-8 abstracted by uninterpreted functions with axioms",
+        "text": "Narrow (the dual representation): the constructor is proved to establish the representation invariant, push / + and case mapping to re-establish it over the concatenated / mapped text; len is proved to be the number of code points and substr / substring to denote exactly the code points [start, min(end, len)) for either representation (ASCII text without table, other text with a byte-offset table), substring returning a well-formed string; the natives are proved to hand only in-range requests to them (everything else is an error value) and find / rfind to answer code-point positions.",
+        "note": "Literals, escapes, formatting, comparison and the string library written in the xray language are listed as unreached; UTF-8 is axiomatised, not modelled.",
     },
     "C06": {
         "engine": "vx+verus",
